@@ -550,11 +550,11 @@ def work_quartic(chunk):
             acc.case(case, nontrivial=True, cell='quartic/%s' % method, outcome=err <= allow)
             acc.maxi('quartic/worst error over allowance', err / allow)
             if not err <= allow:
+                head = '%s(quartic polynomial, method=%r%s, step=MinStepGenerator(base_step=%r (%s), num_steps=4, step_ratio=2))' % (
+                    entry, method, '' if order is None else ', order=%d' % order, base if form == 'scalar' else per, form)
                 acc.violation('C04:%s:quartic-inexact:%s%s' % (entry, method, '' if form == 'scalar' else ':base_step-' + form), jc,
-                              '%s(quartic polynomial, method=%r%s, step=MinStepGenerator(base_step=' + repr(base if form == 'scalar' else per) + ' (' + form + '), num_steps=4, step_ratio=2))'
-                              '(%r): max error %.3g > %.3g (the four steps determine the h, h^2 terms of a quartic exactly); got %r, '
-                              'exact %r' % (entry, method, '' if order is None else ', order=%d' % order, x.tolist(), err, allow,
-                                            val.tolist(), want.tolist()), n)
+                              '%s(%r): max error %.3g > %.3g (the four steps determine the h, h^2 terms of a quartic exactly); got %r, '
+                              'exact %r' % (head, x.tolist(), err, allow, val.tolist(), want.tolist()), n)
     return acc
 
 
